@@ -4,6 +4,10 @@ import json, os, sys, time, collections, random
 from common import *
 
 
+def Q_TIMEOUT(tier):
+    return 1800 if tier == "quick" else 7200
+
+
 class Check:
     def __init__(self, prop, tier, level):
         self.prop, self.tier, self.level = prop, tier, level
@@ -90,25 +94,48 @@ class Check:
         return rows
 
     def validate_sessions(self, sessions, name, props):
-        trace = os.path.join(WORK, f"{self.prop}_{name}.trace.ndjson")
-        with open(trace, "w") as f:
-            for sid, s in enumerate(sessions):
-                f.write(json.dumps({"ev": "Reset", "sid": sid}) + "\n")
-                for c in s["session"]["calls"]:
-                    f.write(json.dumps({"ev": "Call", "sid": sid, "check": props, "c": c}) + "\n")
-                for rel in s["session"]["rels"]:
-                    e = dict(rel)
-                    e.update({"ev": "Rel", "sid": sid})
-                    f.write(json.dumps(e) + "\n")
-        r = tlc("TraceSession", "TraceSession.cfg", workers=1, timeout=1800, name=f"{self.prop}_{name}_trace",
-                env={"TRACE": trace, "JAVA_TOOL_OPTIONS": "-Dtlc2.tool.queue.IStateQueue=StateDeque"}, jvm=["-Xmx6g", "-Xss1g"], coverage=False)
-        if "REJECTED" in r["stdout"] or not r["ok"]:
-            self.tool_errors.append("trace of recorded sessions was not accepted by TraceSession:\n" + tlc_error_text(r, 25))
-            return
+        # the sessions are independent (each starts with a Reset event): they are cut into chunks of comparable size, each
+        # validated by its own TLC process (one worker each, depth-first queue), a few processes side by side
+        from concurrent.futures import ThreadPoolExecutor
+        weight = lambda s: sum(len(c.get("in", [])) + len(c.get("out", [])) for c in s["session"]["calls"]) + 2000
+        total = sum(weight(s) for s in sessions)
+        nchunks = max(1, min(12, total // 400000 + 1, len(sessions)))
+        order = sorted(range(len(sessions)), key=lambda i: -weight(sessions[i]))
+        chunks, loads = [[] for _ in range(nchunks)], [0] * nchunks
+        for i in order:
+            k = loads.index(min(loads))
+            chunks[k].append(i)
+            loads[k] += weight(sessions[i])
+
+        def one(k):
+            trace = os.path.join(WORK, f"{self.prop}_{name}.trace.{k}.ndjson")
+            with open(trace, "w") as f:
+                for sid in chunks[k]:
+                    s = sessions[sid]
+                    f.write(json.dumps({"ev": "Reset", "sid": sid}) + "\n")
+                    for c in s["session"]["calls"]:
+                        f.write(json.dumps({"ev": "Call", "sid": sid, "check": props, "c": c}) + "\n")
+                    for rel in s["session"]["rels"]:
+                        e = dict(rel)
+                        e.update({"ev": "Rel", "sid": sid})
+                        f.write(json.dumps(e) + "\n")
+            return tlc("TraceSession", "TraceSession.cfg", workers=1, timeout=Q_TIMEOUT(self.tier), name=f"{self.prop}_{name}_trace{k}",
+                       env={"TRACE": trace, "JAVA_TOOL_OPTIONS": "-Dtlc2.tool.queue.IStateQueue=StateDeque"}, jvm=["-Xmx6g", "-Xss1g"], coverage=False)
+
+        with ThreadPoolExecutor(max_workers=min(6, nchunks)) as ex:
+            results = list(ex.map(one, range(nchunks)))
+        r = {"prints": [], "states": 0, "transitions": 0}
+        for k, rk in enumerate(results):
+            if "REJECTED" in rk["stdout"] or not rk["ok"]:
+                self.tool_errors.append(f"trace of recorded sessions (chunk {k} of {nchunks}) was not accepted by TraceSession:\n" + tlc_error_text(rk, 25))
+                return
+            r["prints"] += rk["prints"]
+            r["states"] += rk["states"]
+            r["transitions"] += rk["transitions"]
         self.traces_validated += len(sessions)
         self.states += r["states"]
         self.transitions += r["transitions"]
-        self.extra["trace_events_validated"] = self.extra.get("trace_events_validated", 0) + r["states"] - 1
+        self.extra["trace_events_validated"] = self.extra.get("trace_events_validated", 0) + r["states"] - nchunks
         tlc_viol = collections.defaultdict(set)
         for tag, p in r["prints"]:
             if tag == "VIOL":
